@@ -146,6 +146,9 @@ func newBed(c *fw.Ctx, o bedOpt) (*bed, error) {
 		fmt.Sscanf(o.Variant, "extra-aid:%d", &id)
 		accs = append(accs, accessory.NewOutlet(accessory.Info{Name: "Outlet", ID: id}).Accessory)
 	}
+	if o.Variant == "duplicate-ids" { // a configuration mistake: two accessories ask for the same explicit id
+		accs = append(accs, accessory.NewOutlet(accessory.Info{Name: "Outlet A", ID: 77}).Accessory, accessory.NewOutlet(accessory.Info{Name: "Outlet B", ID: 77}).Accessory)
+	}
 	if strings.HasPrefix(o.Variant, "bridged:") { // a bridge with n more accessories: a large attribute database
 		var n int
 		fmt.Sscanf(o.Variant, "bridged:%d", &n)
